@@ -141,6 +141,7 @@ def species_set(rng, m, allow_empty=True):
 def check(run):
     import genlib
     genlib.validate_logic(run, "check_tuple", n=run.n(200, 3000))
+    genlib.validate_cli_species(run, n=run.n(120, 1500))
     run.rule = ("pair / EAM / Finnis-Sinclair models over 2..5 species with 1..7 pair entries; include and exclude sets: empty, partial, full, with unknown labels; "
                 "(1) the four filtered lists vs the Lean filter and the by-hand deletion; (2) op sequences creating/reading up to 4 views of one parser; "
                 "(3) bytes of the tabulated filtered view (API) and of potable --include/--exclude-species vs bytes of the hand-edited file for LAMMPS, GULP, DL_POLY, setfl, DL_POLY_EAM, "
